@@ -11,7 +11,8 @@ import common  # noqa: E402
 MODULES = {
     "C06": "cassette", "C14": "cassette",
     "C07": "disk", "C08": "disk", "C15": "disk",
-    "C01": "asm", "C12": "asm",
+    "C09": "vfile", "C10": "vfile", "C11": "vfile", "C16": "vfile",
+    "C01": "asm", "C12": "asm", "C02": "asm", "C03": "asm", "C04": "asm", "C05": "asm", "C13": "asm",
 }
 
 
